@@ -27,6 +27,7 @@ KNOBS = {
     "p_stop": 0.75,
     "p_faults": 0.4,
     "p_never": 0.06,
+    "p_malformed": 0.14,
     "p_ack_fail": 0.08,
     "p_hook_raise": 0.08,
     "p_timeout": 0.05,
